@@ -99,7 +99,7 @@ pub fn write_archive(dir: &std::path::Path, paths: &[&str], bands: &[BandState])
     }
 }
 
-pub fn judge(dir: &std::path::Path, bands: &[BandState], desc: &str) -> (Vec<Violation>, u64) {
+pub fn judge(dir: &std::path::Path, bands: &[BandState], desc: &str, deep: bool) -> (Vec<Violation>, u64) {
     let mut v = Vec::new();
     let snap = Snap::load(dir);
     let mut listings = 0u64;
@@ -108,12 +108,23 @@ pub fn judge(dir: &std::path::Path, bands: &[BandState], desc: &str) -> (Vec<Vio
             continue;
         }
         let full = ref_stitch(&snap, id as u32);
-        for subtree in ["/", "/a", "/zz"] {
-            for exclude in [None, Some("/a")] {
+        let subtrees: &[&str] = if deep { &["/", "/a", "/b", "/a-b", "/zz"] } else { &["/", "/a", "/zz"] };
+        let excludes: &[Option<&str>] = if deep { &[None, Some("/a"), Some("x"), Some("/b")] } else { &[None, Some("/a")] };
+        for subtree in subtrees.iter().cloned() {
+            for exclude in excludes.iter().cloned() {
                 let expect: Vec<(String, String)> = full
                     .iter()
                     .filter(|(e, _)| apath_under(subtree, &e.apath))
-                    .filter(|(e, _)| exclude.is_none_or(|x| !apath_under(x, &e.apath)))
+                    .filter(|(e, _)| {
+                        exclude.is_none_or(|x| {
+                            if x.starts_with('/') {
+                                !apath_under(x, &e.apath)
+                            } else {
+                                // unanchored name: omitted if any component equals it
+                                !e.apath[1..].split('/').any(|c| c == x)
+                            }
+                        })
+                    })
                     .map(|(e, from)| (e.apath.clone(), format!("from-b{from}")))
                     .collect();
                 let ex: Vec<String> = exclude.iter().map(|s| s.to_string()).collect();
@@ -254,7 +265,7 @@ pub fn run(report: &Report, budget: &Budget) {
             });
             let dir = scratches[w].fresh("a");
             write_archive(&dir, paths, &bands);
-            let (vs, nl) = judge(&dir, &bands, &desc);
+            let (vs, nl) = judge(&dir, &bands, &desc, extra);
             listings.fetch_add(nl, AO::Relaxed);
             for v in &vs {
                 report.violation(v, &json!({"kind": "c08", "paths": paths, "bands": bands.iter().map(state_json).collect::<Vec<_>>()}));
@@ -287,5 +298,5 @@ pub fn replay(case: &Value) -> Vec<Violation> {
     let scratch = Scratch::new("replay");
     let dir = scratch.fresh("a");
     write_archive(&dir, &paths, &bands);
-    judge(&dir, &bands, &describe(&bands, &paths)).0
+    judge(&dir, &bands, &describe(&bands, &paths), true).0
 }
